@@ -212,6 +212,18 @@ Section ListProofs.
       replace (p + n - x) with x by (subst m2; lia). destruct (coin r (N.max x x)); reflexivity.
   Qed.
 
+  (* the same, phrased with the Go loop body of innerPermuteIndex *)
+  Lemma list_round_is_index_round r (l : list A) : let n := N.of_nat (length l) in
+    0 < n -> n < max_size ->
+    exists l', list_round H seed n r l = Ok l' /\ length l' = length l /\
+      forall x, x < n -> exists y, index_round H seed n r x = Ok y /\
+                                   nth_error l' (N.to_nat x) = nth_error l (N.to_nat y).
+  Proof.
+    intros n Hn Hmax. destruct (list_round_spec r l Hn Hmax) as (l' & E & L & G).
+    exists l'. split; [exact E|]. split; [exact L|]. intros x Hx. exists (step n r x).
+    split; [apply index_round_step; try assumption; apply N.lt_le_incl; assumption|apply G; assumption].
+  Qed.
+
   (* all the rounds of a run: position x receives the element that the per-index function,
      run through the same rounds in the opposite order, points at *)
   Lemma run_list_rounds n rs : 0 < n -> n < max_size ->
